@@ -5,6 +5,27 @@ ROOT = os.path.dirname(os.path.dirname(os.path.abspath(__file__)))
 sys.path.insert(0, ROOT)
 props = [json.loads(l) for l in open(os.path.join(ROOT, "properties.jsonl"))]
 checks, na = [], []
+TECH = {
+ "C01": "CBMC (SAT) three-run relational query on the real crypt_<m>_rn over uninterpreted digest/cipher kernels",
+ "C02": "CBMC miter: real method vs transcription of the published algorithm over the same uninterpreted primitive; primitives via C16/C17",
+ "C03": "CBMC two-run query modulo an instantiated injectivity (ideal-kernel) axiom on uninterpreted kernels",
+ "C04": "CBMC bounded model checking with pointer/bounds/overflow/shift instrumentation, exact-fit objects, havoc kernels, cut stretch loops",
+ "C05": "CBMC: real crypt.c over contract stubs from an arbitrary prior output + real methods over havoc kernels",
+ "C06": "CBMC: real methods over havoc kernels (every digest value) against a per-method shape recogniser and the real filter/lookup",
+ "C07": "CBMC non-interference (two runs, independent residue) over uninterpreted kernels + API harness from arbitrary object state",
+ "C09": "CBMC: arbitrary pre-state, wipe log model of explicit_bzero, real Final functions from arbitrary contexts",
+ "C10": "CBMC composition of the real gensalt and the real crypt parser of the same method (havoc kernels)",
+ "C11": "CBMC with a 64-bit symbolic count against an independent cost decoder/specification; decimal printing as constrained uninterpreted digits",
+ "C12": "CBMC two-run injectivity query on the salt encoders; symbolic nrbytes with exact-fit random buffer",
+ "C13": "CBMC with symbolic output_size and exact-fit buffer placement; two-run monotonicity query; assert()/abort as violations",
+ "C14": "CBMC inductive step over the caller-visible (data,size) invariant with a failing/moving realloc model and lifetime tracking",
+ "C15": "CBMC with nondeterministic failure of every allocator-like call (all fault subsets) and a region ledger",
+ "C16": "CBMC inductive Update/Final step from an arbitrary invariant-satisfying context with a block-logging compression stub; HMAC vs RFC 2104 over an ideal hash",
+ "C17": "CBMC compositional miters against a KAT-validated FIPS 46-3 reference (1- and 2-round cut loop, key schedule, obsolete API over a functional core)",
+ "C18": "CBMC: every byte string up to the bound against an independent classifier",
+ "C19": "enumerated build configurations x CBMC dispatch query per configuration; two-build miter for code shared under #if",
+ "C20": "CBMC evaluation of sizeof/offsetof/constants of the regenerated header against frozen released values; alias agreement query",
+}
 NA_REASONS = json.load(open(os.path.join(ROOT, "tools", "not_applicable.json")))
 for p in props:
     pid = p["id"]
@@ -22,7 +43,7 @@ for p in props:
         "engine": "cbmc",
         "level_claimed": {"category": meta.get("level", "other"), "text": meta["claim"], "design_ref": "DESIGN.md section 3, " + pid},
         "level_note": meta["note"],
-        "technique": meta.get("technique", "bounded symbolic model checking of the real C units with CBMC 6.11 (SAT back end)"),
+        "technique": meta.get("technique", TECH.get(pid, "bounded symbolic model checking of the real C units with CBMC 6.11 (SAT back end)")),
     })
 man = {
     "version": 1,
